@@ -776,7 +776,13 @@ def run_sat_case(ctx, case, events):
                                         clamp=10 * SAT_S, tol=1, etol=2), case, l))
                 except ValueError:
                     ctx.verdict('pointwise_independent', False, cls=cls, detail='NaN optical depth in layer %d' % l, vector=v)
+        if np.shape(sc) != np.shape(gc) or np.shape(sc) != np.shape(sf[idx]):
+            ctx.verdict('pointwise_independent', False, cls=cls,
+                        detail='the restricted run returned a spectrum of shape %r for a grid of %d points (full run at those points: %r)'
+                               % (np.shape(sc), len(gc), np.shape(sf[idx])), vector=v)
+            return
         diff = np.abs(sc - sf[idx])
+        slack = np.broadcast_to(np.asarray(slack, dtype=float), diff.shape)
         oksp = diff <= slack + 1e-12 * np.abs(sf[idx])
         k = int(np.argmax(diff - slack))
         ctx.verdict('pointwise_independent', bool(oksp.all()), cls=cls,
